@@ -159,7 +159,21 @@ fn check_validate<L: LayoutTrait>(rep: &mut Report, lay: &str, pi: &PublicInput,
     let replay = json!({"layout": lay, "edit": label, "log_trace_length": log_trace, "predicate": format!("{exp:?}: {why}"), "observed": format!("{got:?}").chars().take(200).collect::<String>()});
     match (exp, outcome) {
         (Expect::Reject, "accepted") => {
-            let kind = if why.contains("more instances") { "copies-not-integer-division" } else if why.contains("stop pointer below") || why.contains("whole number") { "usage-modulo-field" } else { "other" };
+            // specific signature: the violated conjunct (names the builtin) + the edit with numbers collapsed
+            let mut edit = String::new();
+            let mut last_hash = false;
+            for ch in label.chars() {
+                if ch.is_ascii_digit() {
+                    if !last_hash {
+                        edit.push('#');
+                    }
+                    last_hash = true;
+                } else {
+                    last_hash = false;
+                    edit.push(ch);
+                }
+            }
+            let kind = format!("{why} [{edit}]");
             rep.violation(&format!("C14|validate-accepted|{lay}|{kind}"), &format!("validate_public_input accepted an input the statement excludes: {why} [{label}, trace 2^{log_trace}]"), replay)
         }
         (Expect::Accept, "rejected") | (Expect::Accept, "panicked") => rep.violation(&format!("C14|validate-rejected-valid|{lay}"), &format!("validate_public_input did not accept a valid input [{label}]"), replay),
@@ -198,7 +212,10 @@ fn check_verify<L: LayoutTrait>(rep: &mut Report, lay: &str, pi: &PublicInput, l
     };
     rep.inc(&format!("verify.oracle_{}.{outcome}", if want.is_ok() { "computable" } else { "fails" }));
     let replay = json!({"layout": lay, "edit": label, "oracle": format!("{want:?}").chars().take(160).collect::<String>(), "observed": format!("{got:?}").chars().take(200).collect::<String>()});
+    // "too short": the page has to hold the program cells and the output cells (disjoint segments)
+    let too_short = bounds.map(|(pc, ap, ob, os)| (pi.main_page.len() as u64) < (ap - 2).saturating_sub(pc) + (os - ob)).unwrap_or(false);
     match (&got, &want) {
+        (Ok(Ok(_)), _) if too_short => rep.violation(&format!("C14|verify-too-short|{lay}"), &format!("verify_public_input accepted a main page with fewer cells than the program and the output segment need together [{label}]"), replay),
         (Ok(Ok(pair)), Ok(w)) if pair == w || Some(*pair) == want_alt => rep.inc("verify.hashes_equal_address_based_oracle"),
         (Ok(Ok(_)), Ok(_)) => rep.violation(&format!("C14|verify-wrong-cells|{lay}"), &format!("verify_public_input returned hashes of cells other than the program/output addresses [{label}]"), replay),
         (Ok(Ok(_)), Err(e)) => rep.violation(&format!("C14|verify-positional|{lay}"), &format!("verify_public_input hashed a main page positionally although {e} [{label}]"), replay),
@@ -349,6 +366,36 @@ fn probe<L: LayoutTrait>(h: &Honest, rng: &mut Rng, rep: &mut Report, thorough: 
                     p.segments[segi].begin_addr += d;
                 }
                 vedits.push((format!("{name} {which} {}", if d == Felt::ONE { "+1".to_string() } else if d == Felt::ZERO - Felt::ONE { "-1".to_string() } else { format!("+{}", hex(&d)) }), p));
+            }
+        }
+    }
+    {
+        // two cooperating edits: the output segment re-declared onto addresses that are already in the
+        // page (the end of the program, the cells after it), with the page truncated accordingly
+        let pc = fu64(&pi0.segments[0].begin_addr).unwrap_or(1);
+        let ap = fu64(&pi0.segments[1].begin_addr).unwrap_or(3);
+        let prog_len = (ap - 2).saturating_sub(pc) as usize;
+        for k in [1usize, 2, 3, 5] {
+            if prog_len > k && n > prog_len {
+                // output = last k program addresses, page = program only
+                let mut p = clone_pi(pi0);
+                p.segments[2].begin_addr = Felt::from(pc + (prog_len - k) as u64);
+                p.segments[2].stop_ptr = Felt::from(pc + prog_len as u64);
+                p.main_page.0.truncate(prog_len);
+                vedits.push((format!("output segment declared on the last {k} program addresses, page truncated to the program"), p));
+                // output = the k cells right after the program, page cut right after them
+                if n >= prog_len + k {
+                    let mut p = clone_pi(pi0);
+                    let a0 = fu64(&pi0.main_page.0[prog_len].address).unwrap_or(0);
+                    p.segments[2].begin_addr = Felt::from(a0);
+                    p.segments[2].stop_ptr = Felt::from(a0 + k as u64);
+                    p.main_page.0.truncate(prog_len + k);
+                    vedits.push((format!("output segment declared on the {k} cells after the program, page truncated after them"), p));
+                }
+                // output longer than what is left of the page
+                let mut p = clone_pi(pi0);
+                p.segments[2].stop_ptr = p.segments[2].begin_addr + Felt::from((n - prog_len + k) as u64);
+                vedits.push((format!("output segment {k} cells longer than the rest of the page"), p));
             }
         }
     }
